@@ -1,4 +1,5 @@
-(* Correspondence runner for C18.  One case = one configuration (or one bare go-chash instance):
+(* Correspondence runner for C18.  One case = one configuration under test, reached by every participant through its
+   own HISTORY of configurations (or one bare go-chash instance):
    the hash tables the model needs (Go's xxhash64 of the exact byte strings go-chash hashes), the observed
    GetPartitionMembers table, and the answers of every participant (each node and a client) for a list of space ids.
    [check_all] returns (index, code) for bad cases: 1 = model output differs from the observed one,
@@ -22,7 +23,14 @@ Inductive case :=
 | CConf (ph : list int)                         (* partition hashes: hi, lo, hi, lo, ... *)
         (rows : list (int * list int))          (* member id, its virtual-node hashes (hi, lo, ...) *)
         (keys : list (list int * int * int))    (* candidate replication key (bytes), hash hi, lo *)
-        (cfg : list (int * list int * list int))  (* configuration order: id, addresses, types *)
+        (confs : list (int * list (int * list int * list int)))
+                                                (* pool of configurations: Configuration.Id (numbered), nodes in
+                                                   configuration order: id, addresses, types *)
+        (fin : int)                             (* index (in the pool) of the configuration under test: the LAST one
+                                                   every participant received; rows / ptable belong to it *)
+        (hists : list (int * list int))         (* per participant: self, the pool indices of the configurations it
+                                                   received through the real service: first = the one it was started
+                                                   with (Init), the others = updates (Run -> updateConfiguration) *)
         (ptable : list int)                     (* observed CHash().GetPartitionMembers(0..P-1), packed *)
         (spaces : list (list int * list int))   (* space id (bytes), observed ReplKey(space id) (bytes) *)
         (answers : list int)                    (* 5 ints per answer: self, space index, Partition, packed NodeIds,
@@ -55,6 +63,9 @@ Definition dec_keys (keys : list (list int * int * int)) : list (list N * N) :=
 
 Definition dec_cfg (cfg : list (int * list int * list int)) : list node :=
   map (fun n => mkNode (n_of (fst (fst n))) (map n_of (snd (fst n))) (map n_of (snd n))) cfg.
+
+Definition dec_confs (confs : list (int * list (int * list int * list int))) : list conf :=
+  map (fun c => mkConf (n_of (fst c)) (dec_cfg (snd c))) confs.
 
 Fixpoint dec_answers (spaces : list (list N * list N)) (l : list int) : list obs :=
   match l with
@@ -90,6 +101,32 @@ Definition obs_matches (m o : obs) : bool :=
 Definition spec_row (ms : list N) (rf : nat) (r : list N) : bool :=
   nodupb r && subsetb r ms && Nat.eqb (length r) (Nat.min rf (count_distinct ms)).
 
+(* ---------------------------------------------------------------- histories *)
+Definition node_eqb (a b : node) : bool :=
+  (n_id a =? n_id b)%N && list_eqb N.eqb (n_addrs a) (n_addrs b) && list_eqb N.eqb (n_types a) (n_types b).
+Definition conf_eqb (a b : conf) : bool := (c_id a =? c_id b)%N && list_eqb node_eqb (c_nodes a) (c_nodes b).
+
+(* the model's state of a participant after its history (None: malformed history) *)
+Definition hist_state (pool : list conf) (h : list N) : option conf :=
+  match h with
+  | [] => None
+  | i :: r =>
+      match nth_error pool (N.to_nat i) with
+      | None => None
+      | Some c0 =>
+          if forallb (fun j => match nth_error pool (N.to_nat j) with Some _ => true | None => false end) r
+          then Some (run_history c0 (flat_map (fun j => match nth_error pool (N.to_nat j) with
+                                                        | Some c => [c] | None => [] end) r))
+          else None
+      end
+  end.
+
+(* every participant's model state after its history is the configuration under test, and every answer comes from a
+   participant whose history is given: then the model's answers are those computed from [fin]'s table *)
+Definition hists_ok (pool : list conf) (fin : conf) (hists : list (N * list N)) (os : list obs) : bool :=
+  forallb (fun h => match hist_state pool (snd h) with Some c => conf_eqb c fin | None => false end) hists
+  && forallb (fun o => memN (o_self o) (map fst hists)) os.
+
 Definition conf_model_ok (ph : list N) (rows : list (N * list N)) (keys : list (list N * N)) (cfg : list node)
            (ptable : list (list N)) (os : list obs) : bool :=
   match table ph (row_of rows) cfg with
@@ -113,13 +150,17 @@ Definition chash_model_ok (ph : list N) (rf : nat) (rows : list (N * list N)) (m
 (* (spec_ok, model_ok) of a case *)
 Definition verdict (c : case) : bool * bool :=
   match c with
-  | CConf ph rows keys cfg ptable spaces answers =>
+  | CConf ph rows keys confs fin hists ptable spaces answers =>
       let ph' := hashes ph in
-      let cfg' := dec_cfg cfg in
+      let pool := dec_confs confs in
+      let finc := nth (N.to_nat (n_of fin)) pool (mkConf 0 []) in
+      let cfg' := c_nodes finc in
+      let hs := map (fun h => (n_of (fst h), map n_of (snd h))) hists in
       let pt := map unpack ptable in
       let sp := map (fun s => (map n_of (fst s), map n_of (snd s))) spaces in
       let os := dec_answers sp answers in
-      (conf_spec_ok cfg' pt os, conf_model_ok ph' (dec_rows rows) (dec_keys keys) cfg' pt os)
+      (conf_spec_ok cfg' pt os,
+       hists_ok pool finc hs os && conf_model_ok ph' (dec_rows rows) (dec_keys keys) cfg' pt os)
   | CChash ph rf rows ms ptable =>
       let ms' := map n_of ms in
       let rf' := N.to_nat (n_of rf) in
